@@ -144,7 +144,7 @@ func e2Family(tier string, amevs []int64) []*Job {
 			if x == other {
 				// a rejected, late-completed proposal makes the node change view *inside* a timeout / recovery request
 				// (pool-first transactions, M-1 change views already stored, next view's proposal cached)
-				s12 := E2Spec{Views: 2, Proposals: "A", TxA: []H{102, 103}, TxA1: []H{101}, CVs: 1, CVViews: 1, RespPeers: 2, Responses: "A", PoolFirst: true, MaxDepth: 9, StateCap: cap1}
+				s12 := E2Spec{Views: 2, Proposals: "A", TxA: []H{102, 103}, TxA1: []H{101}, CVs: 1, CVViews: 1, Commits: "A", PoolFirst: true, MaxDepth: 9, StateCap: cap1}
 				jobs = append(jobs, job(e2scen(fmt.Sprintf("E2-poolfirst-twoview-N4-x%d-%s-%s", x, role, an), 4, x, a, s12), per))
 			}
 			if x == prim1 {
